@@ -419,6 +419,10 @@ func (w *World) sessData(s *MSess, body []byte, final bool, declared string, o c
 	if o.sleepMs > 0 && !mustAlive0 {
 		// cannot classify a slow request on a session that may already be gone
 	}
+	if !s.tainted && w.faultOverlapped(r) && !(final && r.Code == 201) && w.resyncSession(s, body) {
+		// the server said how much of the interrupted request it kept: the session stays in the model
+		return r
+	}
 	if s.tainted || w.faultOverlapped(r) {
 		// a disk fault hit this session: its further behaviour is not modelled (it may fail or lose un-acknowledged data);
 		// a 201 is still checked through the digest oracles when the content is read back
